@@ -1,6 +1,11 @@
 HOOK_COMMITS = []
 NOT_APPLICABLE = {}
 TEXTS = {
+ "C20": {
+  "technique": "property-based fuzzing (rapid, plus native coverage-guided go fuzzing through rapid.MakeFuzz in the thorough tier): hostile well-typed inputs against every bsonkit / mongokit / driver entry point with a no-panic, no-hang, engine-still-usable oracle",
+  "level_text": "Generated hostile inputs (malformed operator arguments, odd keys and paths, extreme and non-finite numbers, composite ids) fed to the kit-level functions and to the driver API under recover() with a watchdog and a post-call probe write; the thorough tier adds coverage-guided native fuzzing of the same bundle. Millions of calls; sampling, not proof.",
+  "level_note": "Documented panics (unsupported options, nil arguments, not implemented) are excluded as the property says; a hang is a bundle exceeding 20 s.",
+ },
  "C19": {
   "technique": "property-based testing (rapid): generated collections with TTL and other indexes and documents on both sides of every cutoff; expected deleted set computed from the definition",
   "level_text": "Generated search over collections, TTL index combinations and documents placed on both sides of every cutoff (with safety margins) and of every non-date type, against an oracle that computes the expired set directly from the property's definition and checks survivors byte-for-byte, delete events one-to-one, no-op passes and aborted passes changing nothing, and index coherence. Sampling, not proof.",
